@@ -31,8 +31,72 @@ OPNAMES = {1: "get_char", 2: "get_position", 3: "set_position", 4: "set_bad", 5:
 _OBS = {}   # observed-only disagreements (outside the statement of C12): signature -> [count, example]
 
 
-def build():
-    return vlib.build_harness("c12_stream", ["c12_stream.cpp"], libs=("core",))
+def observe(sig, example):
+    o = _OBS.setdefault(sig, [0, None])
+    o[0] += 1
+    if o[1] is None:
+        o[1] = example
+
+
+def _genuine_compile_error(out):
+    """a diagnostic of the compiler about the code (as opposed to the compiler being killed / out of memory on the
+    shared box, or a link failure: our infrastructure, never a verdict)"""
+    if re.search(r"Killed signal|internal compiler error|virtual memory exhausted|No space left|cannot allocate memory|std::bad_alloc", out):
+        return False
+    if out.startswith("link failed"):
+        return False
+    return re.search(r" error: |fatal error:", out) is not None
+
+
+def _first_error(out):
+    for l in out.splitlines():
+        if " error: " in l or "fatal error:" in l:
+            return re.sub(r"\s+", " ", l)[:400]
+    return re.sub(r"\s+", " ", out[-400:])
+
+
+# harness units, largest first: (binary name, -D, what is lost, signature if it does not compile / None = observed only)
+UNITS = (
+    ("c12_stream", ("C12_PARSERS", "C12_EXT"), None, None),
+    ("c12_stream_core", ("C12_PARSERS",),
+     "the extension calls (position ==, location <<, get_char_error, string parser: observed only)", None),
+    ("c12_stream_min", (),
+     "literal / char_set on the stream and the phrase_parse_string error locations", "C12:char_parsers:does-not-compile"),
+)
+
+
+def build(ctx=None):
+    """The whole harness; if it does not compile against the tree under test (and the compiler really diagnosed
+    the code), the in-scope part without the observed-only extension calls (the loss is an OBSERVATION); if that
+    does not compile, the stream alone (the character-level parsers the statement names no longer accept what the
+    harness passed them: VIOLATION C12:char_parsers:does-not-compile); if even that does not compile: VIOLATION
+    C12:stream:does-not-compile and nothing is run.  Returns the binary or None."""
+    err = None
+    for i, (name, defs, lost, sig) in enumerate(UNITS):
+        if err is not None:
+            msg = "the harness unit with %s does not compile against this tree: %s" % (lost, _first_error(err))
+            if ctx is not None:
+                ctx.extra.setdefault("units_not_compiling", []).append({"lost": lost, "first_error": _first_error(err)})
+            if sig is None:
+                observe("C12:extension_unit:does-not-compile", msg)
+            elif ctx is not None:
+                ctx.reject(sig, msg, {"build": True, "unit": name, "compiler_output_tail": err[-2500:]})
+        for attempt in (1, 2):
+            try:
+                return vlib.build_harness(name, ["c12_stream.cpp"], libs=("core",), defs=defs)
+            except vlib.Infra as e:
+                if _genuine_compile_error(str(e)):
+                    err = str(e)
+                    break
+                if attempt == 2:
+                    raise
+                vlib.log("build failed for a reason that is not a compiler diagnostic, retrying once: %s" % str(e)[:200])
+    if ctx is None:
+        raise vlib.Infra("the C12 harness does not compile: %s" % _first_error(err))
+    ctx.reject("C12:stream:does-not-compile",
+               "detail::stream<Ch> / get_char / get_position / set_position as driven by the harness do not compile "
+               "against this tree: %s" % _first_error(err), {"build": True, "unit": "stream", "compiler_output_tail": err[-2500:]})
+    return None
 
 
 # ------------------------------------------------------------------ scripts
@@ -57,6 +121,8 @@ def script_of_hist(text, hist, ch=None, failat=-1):
             ops.append([5, ev[1]])
         elif k == 6:
             ops.append([6, ev[1]])
+    # the last generated transition is observed as well: position, one read, position
+    ops += [[2], [1], [2]]
     s = {"text": text, "ops": ops}
     if failat >= 0:
         s["sk"] = 3
@@ -77,7 +143,7 @@ def script_of_record(r, upto=None):
             ops.append([k, ev[1]])
         elif k == 7:
             ops.append([k, ev[1], ev[2]])
-    return {"text": r["text"], "ops": ops, "ch": r["ch"], "sk": r.get("sk", 0), "fa": r.get("fa", -1)}
+    return {"text": r["text"], "ops": ops, "ch": r["ch"], "sk": r.get("sk", 0), "fa": r.get("fa", -1), "via": r.get("via", 0)}
 
 
 # ------------------------------------------------------------------ judging
@@ -85,23 +151,83 @@ def script_of_record(r, upto=None):
 
 def judge_file(ctx, path, what, rc=0, out="", harness_args=None):
     """Judge one log file with StreamTrace; turn rejected records into ctx.reject()."""
-    lines, tail = vlib.check_trace_file(path)
+    try:
+        lines, tail = vlib.check_trace_file(path)
+    except OSError:
+        lines, tail = [], None      # the process died before it opened its log
+    # records of the shape the judge reads; anything else (the crash marker of vjson.hpp, a line that happens to be
+    # JSON but is no record) is kept out of TLC
+    recs = []
+    crashed = []
+    for x in lines:
+        try:
+            r = json.loads(x)
+        except ValueError:
+            continue
+        if not (isinstance(r, dict) and r.get("f") in ("hist", "scan", "entry")):
+            continue
+        recs.append(x)
+        if "crash" in r:
+            crashed.append((len(recs), r))
+    dirty = len(recs) != len(lines)
+    lines = recs
     if rc != 0:
-        f = "?"
-        if tail:
-            m = re.search(r'"f":"(\w+)"', tail)
-            f = m.group(1) if m else "?"
         kind = {66: "sanitizer", 67: "crash", 68: "hang", 124: "timeout"}.get(rc, "exit%d" % rc)
         san = re.search(r"(ERROR: \w+Sanitizer: [^\n]*|runtime error: [^\n]*)", out)
-        ctx.reject("C12:%s:%s" % (f, kind), "%s in the harness during a %s record (%s): %s; partial line: %s" % (
-            kind, f, what, san.group(1) if san else out[-300:], (tail or "")[:300]),
-            {"harness_args": harness_args, "partial_line": tail})
+        detail = san.group(1) if san else out[-300:]
+        if crashed:
+            # the crash handler of the harness completed the record: the call that was running is named, the events
+            # before it are judged below like any other history
+            n, r = crashed[-1]
+            if r["f"] == "hist":
+                op = OPNAMES.get(r["crash"], "history-setup" if r["crash"] == 0 else "call%s" % r["crash"])
+                k = len(r["ev"])
+                scr = script_of_record(r)
+                if isinstance(r.get("call"), list) and r["call"] and r["call"][0] != 0:
+                    scr["ops"].append(r["call"])     # the fatal call itself, so that the replay repeats it
+                payload = {"script": scr, "record": r, "event_index": k + 1, "fatal_call": op, "harness_args": harness_args}
+                desc = "after %d recorded events of history %s" % (k, json.dumps(r, separators=(",", ":"))[:400])
+                inscope = r.get("sk", 0) == 0 and r["crash"] in (0, 1, 2, 3, 4, 5, 6)
+            else:
+                op = "entry_literal" if r.get("kind") == 5 else "entry_char_set"
+                payload = {"script": {"text": r["text"], "entry": 1, "ch": r["ch"]}, "record": r, "harness_args": harness_args}
+                desc = "entry record %s" % json.dumps(r, separators=(",", ":"))[:400]
+                inscope = True
+            sig = "C12:%s:%s" % (op, kind)
+            if inscope:
+                ctx.reject(sig, "%s (%s) inside %s, %s (%s): %s" % (kind, r.get("what"), op, desc, what, detail), payload)
+            else:
+                # a call / stream kind of the extension round: outside the statement of C12, observed only
+                observe("kind%d:%s" % (r.get("sk", 0), sig), {"record": json.dumps(r, separators=(",", ":"))[:600], "detail": detail[:300]})
+        else:
+            f = "run"
+            if tail:
+                m = re.search(r'"f":"(\w+)"', tail)
+                f = m.group(1) if m else "run"
+            elif rc == 66:
+                f = "process-exit"    # e.g. a leak report after the last record
+            ctx.reject("C12:%s:%s" % (f, kind), "%s in the harness during a %s record (%s): %s; partial line: %s" % (
+                kind, f, what, detail, (tail or "")[:300]),
+                {"harness_args": harness_args, "partial_line": tail})
+        dirty = True
+    if dirty:
         with open(path, "w") as fh:
             fh.write("\n".join(lines) + ("\n" if lines else ""))
     if not lines:
         return []
-    r = vlib.tlc(JUDGE[0], JUDGE[1], workers=1, env={"TRACE": path}, timeout=1500, xmx="3g", tag="StreamTrace_j")
-    v = vlib._verdict_lines(r.out)
+    for attempt in (1, 2):
+        # (the box is shared: a judge process killed by the kernel is noise, not a verdict - one retry)
+        try:
+            r = vlib.tlc(JUDGE[0], JUDGE[1], workers=1, env={"TRACE": path}, timeout=1500, xmx="3g", tag="StreamTrace_j")
+        except vlib.Infra as e:
+            if attempt == 2:
+                raise
+            vlib.log("StreamTrace run failed, retrying once: %s" % str(e).splitlines()[0][:200])
+            continue
+        v = vlib._verdict_lines(r.out)
+        if "VERDICT" in v:
+            break
+        vlib.log("StreamTrace gave no verdict on %s (rc=%d)%s" % (path, r.rc, ", retrying once" if attempt == 1 else ""))
     if "VERDICT" not in v:
         raise vlib.Infra("StreamTrace gave no verdict on %s (rc=%d):\n%s" % (path, r.rc, "\n".join(r.out.splitlines()[-30:])))
     vd = v["VERDICT"][-1]
@@ -148,6 +274,9 @@ def count_classes(ctx, lines, cap=60000):
             bad = False
             n = len(r["text"])
             nl = 10 in r["text"]
+            via = r.get("via", 0)
+            offs = []      # offsets reported for the handed-out positions (as logged)
+            cur = 0        # offset as far as the log tells (only used to classify restores: back / same / ahead)
             for ev in r["ev"]:
                 k = ev[0]
                 if k in (7, 8, 9, 10):
@@ -159,11 +288,20 @@ def count_classes(ctx, lines, cap=60000):
                     res = "exc" if len(ev) == 2 else ("line1" if ev[3] == 1 else "line>1") + ("/end" if ev[2] == n else "")
                 elif k == 3:
                     res = "ok" if ev[2] == 0 else "exc"
+                    if ev[1] < len(offs) and not bad:
+                        res += "/back" if offs[ev[1]] < cur else ("/same" if offs[ev[1]] == cur else "/ahead")
+                        if ev[2] == 0:
+                            cur = offs[ev[1]]
                 elif k in (5, 6):
                     res = {1: "ok", 0: "fail-loc", -1: "fail-noloc", -2: "exc"}[ev[2]]
                 else:
                     res = ""
-                ctx.count_class((r["ch"], r.get("sk", 0), OPNAMES[k], res, rewound, bad, nl))
+                if k == 2 and len(ev) == 5:
+                    offs.append(ev[2])
+                    cur = ev[2]
+                elif (k == 1 and ev[1] >= 0) or (k in (5, 6) and ev[2] in (0, 1)):
+                    cur += 1
+                ctx.count_class((r["ch"], r.get("sk", 0), via, OPNAMES[k], res, rewound, bad, nl, n > 255))
                 if k == 3:
                     rewound = True
                 if k == 4:
@@ -236,7 +374,10 @@ def run(ctx):
     scripts += [dict(x, sk=1) for x in scripts[::5] if "sk" not in x]
     if not thorough:
         scripts = scripts[ctx.seed % 2::2]
-    binary = build()
+    binary = build(ctx)
+    if binary is None:
+        ctx.rule = "the harness does not compile against the tree under test: nothing was run"
+        return
     workers = max(4, min(12, vlib.NCPU - 4))
     nparts = workers
     parts = [scripts[i::nparts] for i in range(nparts)]
@@ -290,13 +431,19 @@ def run(ctx):
         vlib.log("OBSERVATION (outside the statement of C12, not a verdict): %s x%d e.g. %s" % (k, v[0], v[1]))
     ctx.exhaustive = False
     ctx.rule = ("histories = call sequences on one stream object: (a) every generated transition of the small TLC lock-step "
-                "model (texts <= 3, <= 7 calls) as a script, on char and wchar_t; (b) for EVERY text of length <= %d over "
+                "model (texts <= 3, <= 5 calls, followed by get_position / get_char / get_position so that the last transition "
+                "is observed) as a script, on char and wchar_t, through the members of detail::stream on one type and through the "
+                "free functions get_char / get_position / set_position on the other (alternating); (b) for EVERY text of length <= %d over "
                 "{a,\\n,space,tab}: %d seeded random call sequence(s) per character type (get_char/get_position/"
-                "set_position(saved)/literal/char_set, 1 in 8 with badbit set at a random step) and 3 phrase_parse_string "
+                "set_position(any saved position: before, at or ahead of the current offset)/literal/char_set, members or free "
+                "functions chosen per history, 1 in 8 with badbit set at a random step) and 3 phrase_parse_string "
                 "error-location records per type, and one extension history (other stream kinds: stringstream, non-seekable, "
                 "failing at an offset; position ==, location <<, get_char_error, string parser - observed only); (c) random "
-                "texts of length 13..40; %s"
-                "a class = (char type, call, result class, after-a-rewind?, bad stream?, text has newline?) of an executed "
+                "texts of length 13..40, half of them with NUL / CR / 0xFF / 0x80 (wchar_t: U+20AC, U+10FFFF) mixed in, and per "
+                "shard two texts of 300..420 characters (one line longer than 255 columns; more than 255 lines) as compact scan "
+                "records; %s"
+                "a class = (char type, stream kind, members/free functions, call, result class incl. direction of a restore, "
+                "after-a-rewind?, bad stream?, text has newline?, long text?) of an executed "
                 "event (counted on a sample of the log)" % (
                     maxlen, nseq,
                     "(d) for EVERY text of length 10..12 one compact scan history (read all with positions, rewind to a random "
@@ -312,8 +459,13 @@ def run(ctx):
 
 
 def replay(ctx, payload):
-    binary = build()
+    binary = build(ctx)
     p = payload["payload"]
+    if binary is None or p.get("build"):
+        ctx.rule = "replay of a build verdict"
+        ctx.count_class("replay")
+        ctx.count_class("replay2")
+        return
     if p.get("script"):
         sp = os.path.join(ctx.workdir, "replay_script.ndjson")
         rp = os.path.join(ctx.workdir, "replay_out.ndjson")
